@@ -505,6 +505,12 @@ class Controller:
                     return_parameters=result,
                 )
             )
+        elif isinstance(result, hci.HCI_StatusReturnParameters) and not hasattr(
+            self, handler_name
+        ):
+            # Unsupported async command, or unknown opcode: there is no specific
+            # handler that would have sent a Command Status, so do it here.
+            self._send_hci_command_status(result.status, command.op_code)
         elif result is not None:
             logger.error("Async command handlers should return None, got %s", result)
 
